@@ -49,6 +49,9 @@ pub enum RestartCfg {
     Constant1,
     Luby1,
     Geometric1,
+    /// Luby restarts from the first conflict on, with the LBD gate (lbd_coef 1.25) and restart
+    /// blocking (num_assigned_coef 1.0 over a window of 2) active
+    Blocking,
 }
 
 #[derive(Clone, Copy, Debug, PartialEq, Eq, Hash)]
@@ -93,6 +96,7 @@ impl Cfg {
                     RestartCfg::Constant1,
                     RestartCfg::Luby1,
                     RestartCfg::Geometric1,
+                    RestartCfg::Blocking,
                 ] {
                     for learn in [
                         LearnCfg::Default,
@@ -108,7 +112,8 @@ impl Cfg {
                                 learn,
                                 seed,
                             };
-                            if c.valid() {
+                            // (the gated / blocking variant with one seed only)
+                            if c.valid() && !(restart == RestartCfg::Blocking && seed != 0) {
                                 v.push(c)
                             }
                         }
@@ -120,7 +125,9 @@ impl Cfg {
     }
 
     pub fn valid(&self) -> bool {
-        !(self.restart == RestartCfg::Constant1 && self.learn != LearnCfg::Default)
+        // (the same holds, much more mildly, for the gated / blocking Luby variant: it is only
+        // combined with the default database)
+        !(matches!(self.restart, RestartCfg::Constant1 | RestartCfg::Blocking) && self.learn != LearnCfg::Default)
     }
 
     /// A small slice of configurations exercising each mechanism once.
@@ -196,6 +203,12 @@ impl Cfg {
             RestartCfg::Constant1 => aggressive(SequenceGeneratorType::Constant, None),
             RestartCfg::Luby1 => aggressive(SequenceGeneratorType::Luby, None),
             RestartCfg::Geometric1 => aggressive(SequenceGeneratorType::Geometric, Some(2.0)),
+            RestartCfg::Blocking => RestartOptions {
+                lbd_coef: 1.25,
+                num_assigned_coef: 1.0,
+                num_assigned_window: 2,
+                ..aggressive(SequenceGeneratorType::Luby, None)
+            },
         };
         let d = LearningOptions::default();
         let learning_options = match self.learn {
